@@ -16,6 +16,8 @@ import os
 import re
 from concurrent.futures import ThreadPoolExecutor
 
+import sys
+sys.path.insert(0, os.path.dirname(os.path.abspath(__file__)))
 import vlib
 
 LEVEL = "model_checking"
@@ -178,6 +180,39 @@ def run(ctx, replay):
                 tot_s += s
                 tot_e += e
             ctx.distinct("random|" + cfg_class(cfg))
+    # ---- T (index + corpus): every arrival order dealt to 3 goroutines that feed the index at once while a 4th
+    # queries index and corpus in a loop, under the race detector; at quiescence the out-of-order state must satisfy
+    # IndexOOOPred.ConfluentState for the delivered set (Trace_IndexOOO) and live == reloaded (Trace_CorpusRefine)
+    import c05 as _c05
+    import _idxfam
+    reps = _idxfam.generate(ctx, _idxfam.shapes(ctx), quick)
+    if quick:
+        reps = reps[::3]
+    sink = []
+    o5, o6 = _idxfam.run_driver(ctx, reps, tag="conc", race=True, extra=["-conc", "3"], stderr_sink=sink)
+    for se in sink:
+        races(ctx, "index", se)
+    r5 = ctx.tlc_trace("Trace_IndexOOO", "Trace_IndexOOO.cfg", o5, timeout=1800)
+    r6 = ctx.tlc_trace("Trace_CorpusRefine", "Trace_CorpusRefine.cfg", o6, timeout=1800)
+    if not r5["accepted"] or not r6["accepted"]:
+        raise vlib.MachineryError("C14 index traces not consumed: %s %s" % (r5["out"][-800:], r6["out"][-800:]))
+    ev5, ev6 = vlib.read_ndjson(o5), vlib.read_ndjson(o6)
+    for line, text in r5["viols"]:
+        sig, what, rp = _c05.classify(ctx, ev5, line, text)
+        rp["property"] = "C14"
+        ctx.discrepancy(sig.replace("C05/", "C14/index+conc/", 1), "3 concurrent feeders: " + what, rp)
+    for line, text in r6["viols"]:
+        ev = ev6[line - 1]
+        a = line - 1
+        while ev6[a]["ev"] != "reset":
+            a -= 1
+        ctx.discrepancy("C14/index+conc/%s/live-vs-reloaded/%s" % (ev6[a]["shape"], "+".join(ev.get("classes", [])[:8])),
+                        "3 concurrent feeders, order %s: live corpus != reloaded at quiescence: %s" % (ev6[a]["order"], json.dumps(ev.get("diff"))[:400]),
+                        {"property": "C14", "replay": {"shape_name": ev6[a]["shape"], "order": ev6[a]["order"]}})
+    tot_s += len(reps)
+    tot_e += len(ev5) + len(ev6)
+    ctx.distinct("index+conc")
+    ctx.count("T", index_concurrent_replays=len(reps))
     ctx.cov["traces_validated_against_impl"] = tot_s
     ctx.cov["evaluations"] = tot_e
     ctx.cov["exhaustive"] = False
